@@ -101,6 +101,15 @@ def _movedim(func, args, kwargs):
     return like(args[0], np.moveaxis(P(args[0]), args[1], args[2]))
 
 
+@handles("as_tensor", "asarray")
+def _as_tensor(func, args, kwargs):
+    a = args[0]
+    dt = kwargs.get("dtype")
+    if dt is not None and dt != a.dtype:
+        return _cast(torch.Tensor.to, (a, dt), {})
+    return a
+
+
 @handles("contiguous", "clone", "detach", "requires_grad_", "cpu", "cuda", "detach_", "retain_grad", "pin_memory")
 def _ident(func, args, kwargs):
     a = args[0]
